@@ -1,6 +1,7 @@
 package main
 
 import (
+	"go/types"
 	"fmt"
 	"go/token"
 	"regexp"
@@ -210,7 +211,23 @@ func c01BlobBinding(c *Ctx, fn *ssa.Function, fi *FnInfo, sum *Summary, ta, outc
 	reEmpty := regexp.MustCompile(`^EQ\(` + both(gen+`#0\.MediaType`, `const:""`) + `\)$`)
 	cut := skipEdges(fi)
 	nMT, nEmpty := 0, 0
-	for e := range fi.edgesMatching(func(l string, _ *ssa.If, _ bool) bool { return reMT.MatchString(l) }) {
+	// a disjunction of the two facts (the value of `mt != "" && mt != signed` tested as one condition)
+	isOrOfBoth := func(l string) bool {
+		op, alts := splitTopArgs(l)
+		if op != "OR" || len(alts) == 0 {
+			return false
+		}
+		hasMT := false
+		for _, a := range alts {
+			if reMT.MatchString(a) {
+				hasMT = true
+			} else if !reEmpty.MatchString(a) {
+				return false
+			}
+		}
+		return hasMT
+	}
+	for e := range fi.edgesMatching(func(l string, _ *ssa.If, _ bool) bool { return reMT.MatchString(l) || isOrOfBoth(l) }) {
 		cut[e] = true
 		nMT++
 	}
@@ -220,6 +237,67 @@ func c01BlobBinding(c *Ctx, fn *ssa.Function, fi *FnInfo, sum *Summary, ta, outc
 	}
 	rule := "must-check (disjunctive): every non-skip success exit passes desc.MediaType == signed MediaType, bypassable only by desc.MediaType == \"\""
 	if nMT == 0 {
+		// the comparison may live in a boolean helper whose answer gates success: then every exit of the helper with
+		// that answer must carry one of the two facts
+		okHelper := false
+		for _, ci := range allCalls(fn) {
+			call, isC := ci.(*ssa.Call)
+			if !isC {
+				continue
+			}
+			b, isB := call.Type().Underlying().(*types.Basic)
+			if !isB || b.Kind() != types.Bool || staticCallee(call) == nil || !w.IsProductFn(staticCallee(call)) {
+				continue
+			}
+			for _, want := range []bool{false, true} {
+				lbl := "F(" + desc(call) + ")"
+				if want {
+					lbl = "T(" + desc(call) + ")"
+				}
+				onAll := len(sum.Exits) > 0
+				for _, ex := range sum.Exits {
+					if _, h := ex.Checked[lbl]; !h {
+						onAll = false
+					}
+				}
+				if !onAll {
+					continue
+				}
+				exits := w.exitLabelsOfCall(call, Mode{Kind: mBool, Want: want})
+				good := len(exits) > 0
+				for _, m := range exits {
+					has := false
+					for l := range m {
+						if reMT.MatchString(l) || reEmpty.MatchString(l) {
+							has = true
+						}
+						// a disjunction all of whose alternatives are one of the two facts
+						if op, alts := splitTopArgs(l); op == "OR" && len(alts) > 0 {
+							all := true
+							for _, a := range alts {
+								if !reMT.MatchString(a) && !reEmpty.MatchString(a) {
+									all = false
+								}
+							}
+							if all {
+								has = true
+							}
+						}
+					}
+					if !has {
+						good = false
+					}
+				}
+				if good {
+					okHelper = true
+				}
+			}
+		}
+		c.Evals++
+		if okHelper {
+			c.OK("blob/mediatype-equal", rule+" (decided inside a boolean helper whose answer gates every non-skip success exit)", w.FnPos(fn))
+			return
+		}
 		c.Bad("blob/mediatype-equal", rule, w.FnPos(fn), "no comparison between the generated descriptor's MediaType and the signed target's MediaType exists")
 		return
 	}
